@@ -17,7 +17,7 @@ def _container(kind, cells, rng):
     cells = [tuple(int(v) for v in c) for c in cells]
     if kind == 'mixed':
         kind = ['set', 'list', 'tuple'][int(rng.integers(0, 3))]
-    if kind == 'set': return set(cells)
+    if kind in ('set', 'live'): return set(cells)
     if kind == 'list': return list(cells)
     return tuple(cells)
 
@@ -93,10 +93,19 @@ def build(desc, on_step=None):
             marks = random_marks(hs, rng, style=desc.get('style', 'random'), max_levels=int(desc.get('max_levels', 4)))
             if not marks: break
             m = {int(l): _container(desc.get('container', 'set'), cs, rng) for l, cs in marks.items()}
-            hs.refine(m)
+            _maybe_live(hs, m, rng, desc.get('container', 'set'))
             hist.append({int(l): [list(c) for c in cs] for l, cs in marks.items()})
+            hs.refine(m)
             if on_step: on_step(hs, m)
     return hs, hist
+
+def _maybe_live(hs, m, rng, kind):
+    """When all active cells of a level are marked, pass the very set that active_cells() returns (what user code does)."""
+    if kind not in ('live', 'mixed'): return
+    for l in list(m):
+        live = hs.active_cells(l)
+        if set(map(tuple, m[l])) == set(map(tuple, live)) and (kind == 'live' or rng.random() < 0.5):
+            m[l] = live
 
 def random_desc(rng, dims=(1, 2), pmax=3, n0max=4, styles=('random', 'corner', 'isolated', 'multilevel', 'drill'), max_steps=4, max_levels=4,
                 bd_choices=('none', 'empty', 'one', 'all')):
@@ -111,4 +120,4 @@ def random_desc(rng, dims=(1, 2), pmax=3, n0max=4, styles=('random', 'corner', '
     else: bd = [[a, s] for a in range(dim) for s in (0, 1)]
     return {'dim': dim, 'p': p, 'n0': n0, 'disparity': disp, 'truncate': bool(rng.integers(0, 2)), 'bdspecs': bd,
             'hseed': int(rng.integers(0, 2 ** 31)), 'steps': int(rng.integers(1, max_steps + 1)), 'style': str(rng.choice(styles)),
-            'container': str(rng.choice(['set', 'list', 'tuple', 'mixed'])), 'max_levels': max_levels}
+            'container': str(rng.choice(['set', 'list', 'tuple', 'mixed', 'live'])), 'max_levels': max_levels}
